@@ -222,6 +222,10 @@ class TensorDomain(SpecInterp):
                 return self.t_unary("clamp", self.lift(args[0]), tuple(args[1:]), kw)
             if short == "pow":
                 return self.t_binop("pow", self.lift(args[0]), self.lift(args[1]), raw=(args[0], args[1]))
+            if short in ("isclose", "eq", "ne", "lt", "le", "gt", "ge", "logical_and", "logical_or", "logical_xor", "maximum", "minimum", "fmax", "fmin") and len(args) >= 2:
+                # element-wise binary functions: same propagation as the corresponding operator
+                return self.t_binop("cmp" if short in ("isclose", "eq", "ne", "lt", "le", "gt", "ge") else ("and" if short.startswith("logical") else "add"),
+                                    self.lift(args[0]), self.lift(args[1]), raw=(args[0], args[1]))
             if short in LIKE_TORCH:
                 return self.t_unary(short, self.lift(args[0]), tuple(args[1:]), kw)
             if short in CONST_TORCH:
